@@ -21,6 +21,7 @@ import WntrModel.Gen.SchemaDict
 import WntrModel.Gen.Units
 import WntrModel.Props.C17
 import WntrModel.Props.C13
+import WntrModel.Lemmas.InpFormat
 import Mathlib.Data.List.Basic
 import Mathlib.Tactic.Ring
 import Mathlib.Tactic.Linarith
@@ -234,6 +235,82 @@ theorem option_keywords_roundtrip :
     Gen.kwWritten20 = Gen.kwWritten22.filter (fun k => !v22Keywords.contains k) ∧
     v22Keywords.all Gen.kwWritten22.contains = true := by
   refine ⟨?_, ?_, ?_, ?_⟩ <;> decide +kernel
+
+/-! ### A.5 precision of the file format, per field -/
+
+open Wntr.InpFormat
+
+/-- what the model reads back from a slot printed with `sp` (`none`: not a number / mantissa not normalised) -/
+def readBack (sp : Spec) (x : Rat) : Option Rat :=
+  match sp with
+  | .fixed k => some (fixWrite k x).value
+  | .sig n => (sigWrite n x).map sigValue
+  | .repr => some x   -- assumption: str(x) is the shortest string that reads back to the same double
+  | .int => some x    -- '{:d}' is only applied to integers
+  | .text => none
+
+/-- the error bound a spec promises: half a unit of the last decimal (fixed), `0.5·10^(1-n)` relative (significant
+digits), exact (repr, int) -/
+def Bound (sp : Spec) (x y : Rat) : Prop :=
+  match sp with
+  | .fixed k => |y - x| ≤ (1 / 2) / (10 : Rat) ^ k
+  | .sig n => |y - x| ≤ (1 / 2) / (10 : Rat) ^ (n - 1) * |x|
+  | .repr => y = x
+  | .int => y = x
+  | .text => True
+
+/-- **`spec_error_bound`** — for every value -/
+theorem spec_error_bound (sp : Spec) (x y : Rat) (h : readBack sp x = some y) : Bound sp x y := by
+  cases sp with
+  | fixed k => simp only [readBack, Option.some.injEq] at h; subst h; exact fix_error_bound k x
+  | sig n =>
+    simp only [readBack, Option.map_eq_some_iff] at h
+    obtain ⟨ms, hms, rfl⟩ := h
+    exact sig_error_bound n x ms hms
+  | repr => simp only [readBack, Option.some.injEq] at h; exact h.symm
+  | int => simp only [readBack, Option.some.injEq] at h; exact h.symm
+  | text => trivial
+
+/-- a spec that meets a requirement obeys the requirement's bound -/
+theorem bound_of_meets (have_ need : Spec) (hm : have_.meets need = true) (x y : Rat) (hb : Bound have_ x y) : Bound need x y := by
+  cases have_ <;> cases need <;> simp only [Spec.meets, decide_eq_true_eq, Bool.false_eq_true] at hm <;> simp only [Bound] at hb ⊢
+  · exact le_trans hb (fix_bound_mono hm)
+  · exact le_trans hb (mul_le_mul_of_nonneg_right (sig_bound_mono hm) (abs_nonneg x))
+  · subst hb; simp; positivity
+  · subst hb; simp; positivity
+  · exact hb
+  · exact hb
+  · exact hb
+
+def PrecisionMeets : Prop := (Gen.precisionReq.filter fun q => !q.ok Gen.table) = []
+
+/-- **`inp_precision_meets`** — every numeric slot of the specification is printed by the CURRENT writer with a format
+at least as precise as required (decided on the formats the translator extracted): lowering `{:.4f}` to `{:.2f}` for a
+coefficient, or `{:15.11g}` to `{:.6g}`, breaks this theorem and names the slot -/
+theorem inp_precision_meets : PrecisionMeets := by
+  unfold PrecisionMeets
+  decide +kernel
+
+/-- **`inp_field_precision`** — for every required slot, every writer row that prints it, and EVERY value: what is read
+back obeys the REQUIRED bound (the one the oracle applies in file units) -/
+theorem inp_field_precision (q : PrecReq) (hq : q ∈ Gen.precisionReq) (r : Row) (hr : r ∈ q.rows Gen.table)
+    (x y : Rat) (h : readBack r.spec x = some y) : Bound q.need x y := by
+  have hok : q.ok Gen.table = true := by
+    by_contra hbad
+    have : q ∈ Gen.precisionReq.filter fun q => !q.ok Gen.table := List.mem_filter.mpr ⟨hq, by simpa using hbad⟩
+    rw [inp_precision_meets] at this
+    cases this
+  simp only [PrecReq.ok, Bool.and_eq_true, List.all_eq_true] at hok
+  exact bound_of_meets r.spec q.need (hok.2 r hr) x y (spec_error_bound r.spec x y h)
+
+/-- non-vacuity: the reaction coefficients are required (and printed) with four decimals, the pipe lengths with eleven
+significant digits; a two-decimal format does not meet a four-decimal requirement -/
+example : (Gen.precisionReq.any fun q => q.need == .fixed 4 && !(q.rows Gen.table).isEmpty) = true ∧
+    (Gen.precisionReq.any fun q => q.need == .sig 11 && !(q.rows Gen.table).isEmpty) = true ∧
+    Spec.meets (.fixed 2) (.fixed 4) = false := by
+  refine ⟨?_, ?_, ?_⟩ <;> decide +kernel
+
+example : (fixWrite 4 ((-49 : Rat) / 400000)).render false = "-0.0001" := by decide +kernel
 
 end Wntr.InpSchema
 
